@@ -23,7 +23,7 @@ DESIGN_REF = "DESIGN.md section 5 (C02), 4.3, 4.7"
 RULE = (
     "Bounded-exhaustive layer (see exhaustive_layer) + Hypothesis cases: binary object tree (<=5 leaves; thorough <=7), species tree (<=4 leaves; thorough <=6), leaf assignment, <=4 families, each leaf a "
     "non-empty subset in a hidden global order (75%) or an arbitrary order (25%, possibly inconsistent), optional prescribed root "
-    "order, coherent costs incl. sloss=0.  Checked: sreconcile_extended_spfs (ALL, ANY) cost == optimum over all mappings x root "
+    "order, coherent costs incl. sloss=0; in the quick tier one case in 20 has 5 families under few precedence constraints (30..120 root orders), one in 20 has 9..11 families on <=4 leaves with a prescribed root, one in 12 has 6..8 object leaves (policy ANY, recursion oracle).  Checked: sreconcile_extended_spfs (ALL, ANY) cost == optimum over all mappings x root "
     "orders x labellings; sreconcile_base_spfs == optimum with the LCA mapping; empty result iff no root order exists; every "
     "output valid (V-MAP, V-ORD) and package cost == recount.  Non-trivial: >=3 object leaves, >=2 families and the optimum "
     "involves a segmental loss, a non-LCA mapping or an inconsistent input; distinct by SHA-1 of the case."
@@ -46,6 +46,12 @@ EXHAUSTIVE_COMPLETE = False  # the random layer is not exhaustive
 
 @st.composite
 def _with_large(draw, small):
+    if gen.chance(draw, 1, 20):
+        # five families under few precedence constraints: dozens of root orders to explore
+        return draw(gen.many_orders_case())
+    if gen.chance(draw, 1, 20):
+        # 9..11 families (synteny masks wider than one byte) on few leaves, root order prescribed
+        return draw(gen.many_families_case())
     if gen.chance(draw, 1, 12):
         # beyond plain enumeration: 6..8 object leaves, 3..6 species leaves, policy ANY, decided by the recursion oracle
         case = draw(gen.rec_case(max_obj=8, max_sp=6, min_obj=6, min_sp=3, costs="coherent", labelled=True, max_fam=4, prescribed_root=True))
